@@ -623,6 +623,8 @@ def interval_of_name_at(stmts, var, target, value_bounds):
     (x < c, c < x, x <= c, c <= x, ==).  Everything else leaves the interval unchanged.  Returns a sorted list of distinct intervals
     (one per feasible path class)."""
     from .cfg import CFG
+    import inspect
+    two_args = len(inspect.signature(value_bounds).parameters) >= 2
     cfg = CFG(stmts, exceptions=False)
     stop = set(cfg_nodes_containing(cfg, target))
     found = set()
@@ -672,6 +674,12 @@ def interval_of_name_at(stmts, var, target, value_bounds):
             lo = mx(lo, c)
         elif kind is ast.Eq:
             lo, hi = mx(lo, c), mn(hi, c)
+        elif kind is ast.NotEq:
+            # excluding a boundary value of an integer interval moves the boundary
+            if lo is not None and lo == c:
+                lo = c + 1
+            if hi is not None and hi == c:
+                hi = c - 1
         return (lo, hi)
 
     def step(state, node, label):
@@ -684,7 +692,8 @@ def interval_of_name_at(stmts, var, target, value_bounds):
             if iv[0] is not None and iv[1] is not None and iv[0] > iv[1]:
                 return None        # infeasible branch
         if node.kind == 'stmt' and isinstance(node.ast, ast.Assign) and any(isinstance(t, ast.Name) and t.id == var for t in node.ast.targets):
-            iv = tuple(value_bounds(node.ast.value))
+            # value_bounds may take the interval the variable has before the assignment (`x = max(x, 1)`)
+            iv = tuple(value_bounds(node.ast.value, iv)) if two_args else tuple(value_bounds(node.ast.value))
         elif node.kind == 'stmt' and isinstance(node.ast, ast.AugAssign) and isinstance(node.ast.target, ast.Name) and node.ast.target.id == var:
             iv = (INF, INF)
         return iv
